@@ -59,6 +59,10 @@ func ociDesc(name string) ocispec.Descriptor {
 	panic(name)
 }
 
+// content types that are NOT the Notary payload type (the signed content type must be exactly that string)
+var wrongContentTypes = []string{"application/json", forge.PayloadType + "-seq", forge.PayloadType + "; charset=utf-8", forge.PayloadType + " ", " " + forge.PayloadType,
+	"APPLICATION/VND.CNCF.NOTARY.PAYLOAD.V1+JSON", "application/vnd.cncf.notary.payload.v2+json", "application/vnd.cncf.notary.payload.v1", "application/vnd.cncf.notary.payload.v1+jso"}
+
 var signedMetas = []map[string]string{nil, {"k": "v"}, {"k": "v2"}, {"k": "v", "k2": "w"}}
 var requiredMetas = []map[string]string{nil, {"k": "v"}, {"k": "v2"}, {"k2": "w"}, {"k": "v", "k2": "w"}, {"k": "v", "missing": "x"}, {"k": ""}}
 
@@ -420,9 +424,14 @@ func main() {
 				fresh = append(fresh, &env{Label: fmt.Sprintf("fresh+plugin/%s/%s/%s/meta1", short(f), s, a), Format: f, Family: "fresh-plugin",
 					Bytes: w.sign(f, s, forge.PayloadFor(descWithMeta(ociDesc(a), signedMetas[1])), pluginExt, "")})
 			}
-			// (iv) wrong payload content type, otherwise perfect
-			fresh = append(fresh, &env{Label: fmt.Sprintf("wrongcty/%s/%s/A", short(f), s), Format: f, Family: "wrong-content-type",
-				Bytes: w.sign(f, s, forge.PayloadFor(ociDesc("A")), nil, "application/json")})
+			// (iv) wrong payload content type, otherwise perfect: foreign types and near misses of the Notary type
+			for ci, cty := range wrongContentTypes {
+				if f == forge.COSE && strings.TrimSpace(cty) != cty {
+					continue // go-cose (the encoder) refuses to write content types with surrounding blanks
+				}
+				fresh = append(fresh, &env{Label: fmt.Sprintf("wrongcty%d/%s/%s/A", ci, short(f), s), Format: f, Family: "wrong-content-type",
+					Bytes: w.sign(f, s, forge.PayloadFor(ociDesc("A")), nil, cty)})
+			}
 			// blobs
 			h := forge.HashOf(w.chains[s].Leaf().Key.Public())
 			for ci, content := range [][]byte{blobA, blobB, {}, blobA[:len(blobA)/2]} {
@@ -462,6 +471,9 @@ func main() {
 			for ri, req := range requiredMetas {
 				for _, sa := range stores {
 					for _, pm := range []bool{false, true} {
+						if j.e.Family == "wrong-content-type" && (pn != "A" || ri > 1 || sa == storeError || pm) {
+							continue // the content type is judged before anything else: matching artifact, two metadata maps, two store answers
+						}
 						if pm && j.e.Family != "fresh-plugin" && sa != storeTrusted {
 							continue // plugin manager is irrelevant for envelopes that name no plugin; keep one combination
 						}
